@@ -226,6 +226,7 @@ func runSites(useHook bool) func(c *evid.Case) {
 			key, class := genKey(c, e, i)
 			c.Journal("key %x", key)
 			c.Count("keys/"+class, 1)
+			c.AddEvaluations(1)
 			post := rng.Intn(256) == 0
 			role := vsim.AllRoles[rng.Intn(len(vsim.AllRoles))]
 			var msg *spectypes.SSVMessage
